@@ -13,7 +13,8 @@
 From Coq Require Import String.
 From AV Require Import Lib.Base Gen.Consts Web.ContentCoding Web.ContentCodingProofs
                        Web.Negotiate Web.NegotiateSpec Web.NegotiateProofs Web.WireCompose
-                       Gen.CodingTables Web.CodingTie.
+                       Gen.CodingTables Web.CodingTie
+                       Web.ContentCodingEndProofs Web.ContentCodingSelect Web.ContentCodingSelectProofs.
 (* the HTTP/1 response encoder model, its RFC 7230 reader and the HTTP/2 header preparation are
    the models of C02 / C08; their names are used qualified *)
 From AV Require H1.Encoder H1.RespSpec H1.EncoderProofs H2.Prepare.
@@ -93,6 +94,50 @@ Section AbstractCodec.
     dec_poll D dec_feed dec_eof max_dec fuel s o = (Ready None, s, o).
   Proof. exact (decoder_end_is_final D dec_feed dec_eof max_dec). Qed.
 
+  (* TERMINATION, the eof flag: [enc_drive_obs] is [enc_drive] (first conjunct) with one more
+     result, the number of `None`s the handler's body returned.  From the state Encoder::response
+     builds (any codec or none), for every body, every Pending pattern and every number of consumer
+     polls up to the answer's end: the handler's body answers None AT MOST ONCE, i.e. it is never
+     polled again after its end (whatever it would do then: panic, pend for ever), and exactly once
+     when the consumer has seen the end *)
+  Theorem C13_body_never_polled_after_its_end :
+    forall (enc : option E) (body : list bytes) (o : list bool) (n : nat),
+    let '(outs, sf, fin, nones) :=
+        enc_drive_obs E enc_write enc_take enc_finish max_enc n (enc_init E enc body) o in
+    (outs, sf, fin) = drive_enc n (enc_init E enc body) o /\
+    (nones <= 1)%nat /\ (fin = true -> nones = 1%nat).
+  Proof.
+    intros enc body o n.
+    pose proof (encoder_body_never_polled_after_its_end E enc_write enc_take enc_finish max_enc enc body o n) as H.
+    pose proof (enc_drive_obs_erase E enc_write enc_take enc_finish max_enc n (enc_init E enc body) o) as He.
+    destruct (enc_drive_obs E enc_write enc_take enc_finish max_enc n (enc_init E enc body) o) as [[[outs sf] fin] k].
+    split; [exact He|exact H].
+  Qed.
+
+  (* ... and the poll after the trailer chunk (the codec's non-empty finish output) answers the end
+     at once, polling nothing: eof is set, the count is 0, state and oracle are untouched *)
+  Theorem C13_encoder_none_right_after_trailer : forall (e : E) (o o2 : list bool) (f1 f2 : nat),
+    nonempty (enc_finish e) = true ->
+    let s := {| e_body := []; e_encoder := Some e; e_fut := None; e_eof := false |} in
+    exists s', enc_poll_obs E enc_write enc_take enc_finish max_enc (S f1) s (true :: o)
+                 = (Ready (Some (enc_finish e)), s', o, 1%nat) /\
+               e_eof E s' = true /\
+               enc_poll_obs E enc_write enc_take enc_finish max_enc (S f2) s' o2 = (Ready None, s', o2, O).
+  Proof. exact (encoder_none_right_after_trailer E enc_write enc_take enc_finish max_enc). Qed.
+
+  (* the three returns of the arm of Encoder::poll_next that runs at the body's end are the
+     generated rows of the source (which return, `*this.eof = true` before it or not) *)
+  Theorem C13_body_end_arm_is_the_source : forall (fuel : nat) (enc : option E) (o : list bool),
+    let s := {| e_body := []; e_encoder := enc; e_fut := None; e_eof := false |} in
+    let '(r, s', _) := enc_poll E enc_write enc_take enc_finish max_enc (S fuel) s (true :: o) in
+    exists sets_eof ret, end_arm_row (end_arm_of E enc_finish enc) = Some (sets_eof, ret) /\
+      e_eof E s' = sets_eof /\
+      match ret with
+      | RetEnd => r = Ready None
+      | RetChunk => exists e, enc = Some e /\ r = Ready (Some (enc_finish e))
+      end.
+  Proof. exact (enc_body_end_tie E enc_write enc_take enc_finish max_enc). Qed.
+
   (* PASS-THROUGH of the body: without an encoder / decoder the chunks are handed on unchanged,
      one by one, under every Pending pattern *)
   Theorem C13_passthrough_body : forall (chunks : list bytes) (o : list bool) (n : nat),
@@ -150,6 +195,61 @@ Section AbstractCodec.
     exists cd3, tail, f, (concat outs). repeat split; assumption.
   Qed.
 End AbstractCodec.
+
+(* ---------------------------------------------------------------- request side: which decoder *)
+
+(* SUPPORTED Content-Encoding => DECODED: when the first Content-Encoding value of the request is
+   the token of a coding with a codec (br, gzip, deflate, zstd) in ANY letter case, with ANY
+   optional whitespace (space / tab) around it, Decoder::from_headers builds the decoder of exactly
+   that coding (and C13_lossless_decoder then applies) *)
+Theorem C13_supported_token_selects_its_decoder :
+  forall (c : coding) (pre tok post : bytes) (more : list bytes),
+  selectable c = true ->
+  forallb ows pre = true -> forallb ows post = true ->
+  map to_lower tok = coding_name c ->
+  decoder_from_headers ((pre ++ tok ++ post) :: more) = c /\ decoder_new_has c = true.
+Proof. exact supported_token_selects_its_decoder. Qed.
+
+(* no header, a value that is not visible ASCII, a value the parser rejects, or identity in any
+   case: no decoder *)
+Theorem C13_no_decoder_cases : forall (vals : list bytes),
+  vals = [] \/
+  (exists v more, vals = v :: more /\ (to_str_ok v = false \/ content_encoding_from_str v = None)) \/
+  (exists pre tok post more, vals = (pre ++ tok ++ post) :: more /\ forallb ows pre = true /\
+      forallb ows post = true /\ map to_lower tok = coding_name Identity) ->
+  decoder_new_has (decoder_from_headers vals) = false.
+Proof. exact no_decoder_cases. Qed.
+
+(* the model of ContentEncoding::from_str / Decoder::from_headers / Decoder::new is the
+   interpretation of the generated tables (trim, comparison and literal of every arm in order, the
+   fallback variant, the variants with a decoder) *)
+Theorem C13_decoder_selection_is_the_source : forall (enc v : bytes) (more : list bytes) (c : coding),
+  content_encoding_from_str enc =
+    from_str_chain CE_FROM_STR_ARMS (if CE_FROM_STR_TRIMS then trim enc else enc) /\
+  decoder_from_headers [] = variant_coding DEC_FROM_HEADERS_FALLBACK /\
+  (to_str_ok v = false \/ content_encoding_from_str v = None ->
+   decoder_from_headers (v :: more) = variant_coding DEC_FROM_HEADERS_FALLBACK) /\
+  decoder_new_has c =
+    existsb (fun a : ce_variant * ce_variant => coding_eqb (variant_coding (fst a)) c) DECODER_NEW_ARMS /\
+  forallb (fun a : ce_variant * ce_variant => coding_eqb (variant_coding (fst a)) (variant_coding (snd a)))
+          DECODER_NEW_ARMS = true.
+Proof.
+  intros enc v more c. split; [apply from_str_tie|].
+  destruct (from_headers_fallback_tie v more) as [H1 H2]. split; [exact H1|]. split; [exact H2|].
+  apply decoder_new_tie.
+Qed.
+
+(* non-vacuity: "\tGZip " selects gzip; "Br" (first of two fields) selects br; "gzip, br",
+   "x-gzip", a value with an obs-text byte and no header select nothing *)
+Example C13_select_example :
+  decoder_from_headers [[9; 71; 90; 105; 112; 32]] = Gzip /\
+  decoder_from_headers [[66; 114]; [103; 122; 105; 112]] = Brotli /\
+  decoder_from_headers [[103; 122; 105; 112; 44; 32; 98; 114]] = Identity /\
+  decoder_from_headers [[120; 45; 103; 122; 105; 112]] = Identity /\
+  decoder_from_headers [[103; 122; 105; 112; 233]] = Identity /\
+  decoder_from_headers [] = Identity /\
+  forallb ows [9] = true /\ map to_lower [71; 90; 105; 112] = coding_name Gzip.
+Proof. vm_compute. repeat split. Qed.
 
 (* ---------------------------------------------------------------- decision, label, negotiation *)
 
